@@ -80,6 +80,16 @@ def run_case(rep, rng, ci, dev, cfg, texts, recs_all):
             # every RECORDED step, the first frame included (with a seed solution it is the state the run starts from)
             import h5py
             with h5py.File(sol_.path, "r") as f_:
+                if cfg.get("seed") is not None:
+                    # correspondence with Proofs.StepP.impose: the first frame is the seed's order parameter with the terminal value
+                    # imposed on the terminal sites, bit for bit elsewhere
+                    first_ = np.array(f_["data"][sorted(f_["data"], key=int)[0]]["psi"])
+                    seed_psi_ = np.asarray(cfg["seed"].tdgl_data.psi)
+                    want_ = np.array(seed_psi_, copy=True)
+                    want_[tsites] = tp
+                    if not np.array_equal(first_, want_):
+                        rep.not_shown("correspondence: the state a seeded run starts from is not Proofs.StepP.impose (seed, terminal value on the "
+                                      "terminal sites)", {"run": ci, "max_abs_diff": float(np.max(np.abs(first_ - want_)))})
                 for key_ in sorted(f_["data"], key=int):
                     dv_ = float(np.max(np.abs(np.array(f_["data"][key_]["psi"])[tsites] - tp)))
                     if dv_ != 0.0:
